@@ -105,7 +105,7 @@ func quantise(n int64, d, p int) *big.Int {
 type decPath [][2]int64 // numerators
 
 func decToD(p decPath, d int) clipper.PathD {
-	out := make(clipper.PathD, len(p))
+	out := newPathD(len(p))
 	den := math.Pow(10, float64(d))
 	for i, q := range p {
 		out[i] = clipper.PointD{X: float64(q[0]) / den, Y: float64(q[1]) / den}
@@ -114,11 +114,11 @@ func decToD(p decPath, d int) clipper.PathD {
 }
 
 func decsToD(s []decPath, d int) clipper.PathsD {
-	out := make(clipper.PathsD, len(s))
+	out := newPathsD(len(s))
 	for i, q := range s {
 		out[i] = decToD(q, d)
 	}
-	return out
+	return regPathsD(out)
 }
 
 func decQuant(p decPath, d, prec int) (clipper.Path64, BPath) {
